@@ -35,15 +35,18 @@ def run(ctx):
     # ---- 1. design level
     inter = [0, 1, 2, 4, 128, 256]          # user pid mnt cgfd amb: the row flags the step machine reads
     if quick:
-        rows = {0, 511, rng.choice([1, 3, 5, 257]), rng.choice([2, 6, 130, 384])}
+        rows = {0, rng.choice([1, 3, 5, 257, 2, 6, 130, 384, 511])}
     else:
         rows = {a | b | c | d | e for a in (0, 1) for b in (0, 2) for c in (0, 4) for d in (0, 256) for e in (0, 128 | 8 | 16 | 32 | 64)}
         rows |= {511, 8, 16, 32, 64}
-    r = ctx.tlc("Launch", cfg=mc_cfg(rows), workers=4, timeout=900, extra=("-lncheck", "final"))
-    ctx.tlc_ok("Launch MC (C04: %d rows x 512 site combinations)" % len(rows), r)
-    ctx.cov["mc_configurations"] = 512 * len(rows)
-    ctx.cov["mc_states"] = r.distinct
-    ctx.log("MC: %d configurations, %d distinct states, %.0fs" % (512 * len(rows), r.distinct, r.wall))
+    import threading, time
+    mc = {}
+
+    def do_mc():
+        mc["r"] = ctx.tlc("Launch", cfg=mc_cfg(rows), workers=ctx.pick(2, 4), timeout=900, extra=("-lncheck", "final"))
+    mct = threading.Thread(target=do_mc)
+    mct.start()          # runs while the real launches are made
+    time.sleep(0.3)
 
     # ---- 2. cases: full factorial of the site flags x rows
     cov = lc.covering_rows(rng)
@@ -69,7 +72,7 @@ def run(ctx):
 
     # ---- 3. real launches
     obs, _ = lc.run_chunks(ctx, "c04", cases, "plain", par=4, timeout=ctx.pick(300, 1500))
-    st_pool = [c for c in cases if not c["opt"]["ptrace"] and not c["hang"]]
+    st_pool = [c for c in cases if not c["nostrace"]]
     rng.shuffle(st_pool)
     st_cases = []
     for i, c in enumerate(st_pool[:ctx.pick(96, 600)]):
@@ -79,6 +82,14 @@ def run(ctx):
     sobs, logs = lc.run_chunks(ctx, "c04", st_cases, "strace", par=4, strace=True, timeout=ctx.pick(300, 1500))
     ctx.log("launches: %d plain, %d under strace" % (len(obs), len(sobs)))
     allobs = obs + sobs
+
+    # ---- 1b. the design-level result
+    mct.join()
+    r = mc["r"]
+    ctx.tlc_ok("Launch MC (C04: %d rows x 512 site combinations)" % len(rows), r)
+    ctx.cov["mc_configurations"] = 512 * len(rows)
+    ctx.cov["mc_states"] = r.distinct
+    ctx.log("MC: %d configurations, %d distinct states, %.0fs" % (512 * len(rows), r.distinct, r.wall))
 
     # ---- 4. TLC judges the observations
     j = ctx.tlc("Launch_Judge", files={"c04obs.ndjson": allobs}, timeout=900, count=False)
